@@ -262,6 +262,44 @@ def build_driver():
         return exe, out
 
 
+def repo_fingerprint():
+    """Content hash of everything cargo compiles from the repository (path included): cargo's own freshness test is
+    by mtime, which a restored / swapped tree with old timestamps would defeat."""
+    h = hashlib.sha256(REPO.encode())
+    roots = [os.path.join(REPO, d) for d in ("src", "tests", "benches", "examples")]
+    files = [os.path.join(REPO, f) for f in ("Cargo.toml", "Cargo.lock", "build.rs")]
+    for r in roots:
+        for dp, dn, fn in os.walk(r):
+            dn.sort()
+            files += [os.path.join(dp, f) for f in sorted(fn)]
+    for f in files:
+        try:
+            with open(f, "rb") as fh:
+                h.update(f.encode()); h.update(b"\0"); h.update(fh.read()); h.update(b"\0")
+        except OSError:
+            pass
+    return h.hexdigest()
+
+
+def force_rebuild_if_changed(target_dir, stamp_name):
+    """When the repository's contents differ from what the last build in `target_dir` saw, drop cargo's fingerprints
+    of the lace crate (and of the harness that links it) so that the next `cargo build` recompiles them from the current
+    working tree whatever the timestamps say.  Returns the fingerprint to record after a successful build."""
+    fp = repo_fingerprint()
+    stamp = os.path.join(target_dir, stamp_name)
+    old = open(stamp).read().strip() if os.path.exists(stamp) else None
+    if old != fp:
+        for prof in ("debug", "release"):
+            d = os.path.join(target_dir, prof, ".fingerprint")
+            if os.path.isdir(d):
+                for n in os.listdir(d):
+                    if n.startswith("lace-"):
+                        shutil.rmtree(os.path.join(d, n), ignore_errors=True)
+        if os.path.exists(stamp):
+            os.remove(stamp)
+    return fp, stamp
+
+
 def build_harness(profile="debug"):
     """Rebuild the harness (and lace inside it) from /repo's current working tree."""
     with Lock("cargo"):
@@ -270,12 +308,14 @@ def build_harness(profile="debug"):
         ct = os.path.join(HARNESS, "Cargo.toml")
         if not os.path.exists(ct) or open(ct).read() != tmpl:
             open(ct, "w").write(tmpl)
+        fp, stamp = force_rebuild_if_changed(TARGET, f".lv_repo_{profile}")
         cmd = "cargo build --offline" + (" --release" if profile == "release" else "")
         rc, out = sh(cmd, cwd=HARNESS, timeout=1800,
                      env={"RUSTFLAGS": "--cfg lace_verif", "CARGO_TARGET_DIR": TARGET})
         exe = os.path.join(TARGET, profile, "lace-verif-harness")
         if rc != 0 or not os.path.exists(exe):
             return None, out
+        open(stamp, "w").write(fp)
         return exe, out
 
 
@@ -285,11 +325,14 @@ def build_lace_cli(profile="debug"):
     in-process harness exercises the hooked one; both are compared with the same model."""
     with Lock("cargo-cli"):
         cmd = "cargo build --offline --bin lace" + (" --release" if profile == "release" else "")
-        env = {"CARGO_TARGET_DIR": os.path.join(CACHE, "target-plain")}
+        tdir = os.path.join(CACHE, "target-plain")
+        fp, stamp = force_rebuild_if_changed(tdir, f".lv_repo_{profile}")
+        env = {"CARGO_TARGET_DIR": tdir}
         rc, out = sh("env -u RUSTFLAGS " + cmd, cwd=REPO, timeout=1800, env=env)
-        exe = os.path.join(CACHE, "target-plain", profile, "lace")
+        exe = os.path.join(tdir, profile, "lace")
         if rc != 0 or not os.path.exists(exe):
             return None, out
+        open(stamp, "w").write(fp)
         return exe, out
 
 
